@@ -402,6 +402,13 @@ pub struct Launch {
     pub decoy_dirs: Vec<String>,
     /// files named like files of the workspace
     pub decoy_files: Vec<String>,
+    /// a directory in the way of the quilt backup `.pc/<patch>/<path>` (saving it fails), and a decoy file of
+    /// the same relative name in the launch directory
+    #[serde(default)]
+    pub backup_obstacle: Option<(String, String)>,
+    /// dangling symbolic links at `<file>.rej` of files that are going to get a reject, pointing outside
+    #[serde(default)]
+    pub rej_links: Vec<String>,
 }
 
 fn build_launch(ch: &mut Chooser, cx: &mut CaseCtx) -> Launch {
@@ -441,7 +448,22 @@ fn build_launch(ch: &mut Chooser, cx: &mut CaseCtx) -> Launch {
     files.sort();
     let decoy_dirs: Vec<String> = dirs.iter().filter(|_| ch.chance(1, 2)).cloned().collect();
     let decoy_files: Vec<String> = files.iter().filter(|f| ch.chance(1, 4) && !decoy_dirs.iter().any(|d| d == *f || d.starts_with(&format!("{}/", f)))).cloned().collect();
-    Launch { ws, opts, abs: ch.chance(1, 2), decoy_dirs, decoy_files }
+    let mut backup_obstacle = None;
+    if ch.chance(1, 4) {
+        let cands: Vec<(String, String)> = ws.metas.iter().take(ws.applicable()).flat_map(|m| m.ops.iter().filter(|o| o.kind == "modify").map(move |o| (m.name.clone(), o.target.clone()))).collect();
+        if !cands.is_empty() {
+            backup_obstacle = Some(cands[ch.below(cands.len())].clone());
+            opts.backup = "always".into();
+            opts.backup_count = "all".into();
+        }
+    }
+    let mut rej_links = Vec::new();
+    if let Some(j) = ws.fail_at {
+        if ch.chance(1, 2) {
+            rej_links = ws.metas[j].ops.iter().filter(|o| !o.failing_hunks.is_empty()).map(|o| o.target.clone()).collect();
+        }
+    }
+    Launch { ws, opts, abs: ch.chance(1, 2), decoy_dirs, decoy_files, backup_obstacle, rej_links }
 }
 
 fn check_launch(l: &Launch, cx: &mut CaseCtx) -> Verdict {
@@ -471,6 +493,23 @@ fn check_launch(l: &Launch, cx: &mut CaseCtx) -> Verdict {
         }
         if !p.exists() {
             std::fs::write(&p, VICTIM).ok();
+        }
+    }
+    if let Some((patch, path)) = &l.backup_obstacle {
+        cx.label("backup-cannot-be-saved-decoy-of-the-same-name");
+        let rel = format!(".pc/{}/{}", patch, path);
+        std::fs::create_dir_all(wsroot.join(&rel)).ok();
+        let decoy = launch.join(&rel);
+        if let Some(par) = decoy.parent() {
+            std::fs::create_dir_all(par).ok();
+        }
+        std::fs::write(&decoy, VICTIM).ok();
+    }
+    for (k, t) in l.rej_links.iter().enumerate() {
+        cx.label("dangling-link-at-the-reject-path");
+        let link = wsroot.join(format!("{}.rej", t));
+        if link.parent().map_or(false, |p| p.is_dir()) {
+            let _ = std::os::unix::fs::symlink(base.join(format!("outside-victim-{}", k)), &link);
         }
     }
     let outside = |b: &std::path::Path| -> ws::Snapshot { ws::snapshot(b).into_iter().filter(|(p, _)| !p.starts_with(b"work/ws/") && p.as_slice() != b"work/ws").collect() };
